@@ -39,6 +39,7 @@ def gen_cases(ck):
         # every third: a closest pair of junctions is turned nearly vertical and the two move sideways in opposite directions by
         # 0.9 of the tracking bound (less than half the smallest spacing), all other junctions slower
         cases[-1]["zero_id"] = bool(i % 3 == 0)
+        cases[-1]["static_first"] = bool(i % 2 == 1)
         if i % 3 == 1:
             cases[-1].update({"steep": True, "tau_spread": 0.2, "bound_factor": 0.9})
     return cases
@@ -191,6 +192,13 @@ def run_case(ck, case, reqs, pending):
     kw = {"b_matrix": "velocity"}
     if method:
         kw["method"] = method
+    if case.get("static_first"):
+        # the same assembled system was solved before in static mode (what was solved before must not matter)
+        try:
+            impl.quiet(f.solve_stress, when=t_test, **({"method": method} if method else {}))
+            ck.count("static_solve_before_the_velocity_solve")
+        except Exception:
+            ck.count("static_solve_before_raised")
     impl.quiet(f.solve_stress, when=t_test, **kw)
     fm = f.force_matrices[t_test]
     fr = frames[t_test]
